@@ -24,13 +24,14 @@ TECHNIQUE = ("property-based testing (Hypothesis): responses produced by an inde
 RULE = ("A case is (protocol version in {1,2,3,4,5,6,0x41,0x42}, stream id, optional trace id / warnings / custom payload "
         "(v4+) / fake compression (not v5/v6), response description).  Descriptions are built by construction: RESULT void / "
         "set_keyspace / schema_change (v1-2 and v3+ layouts, every target) / rows (1-4 columns over scalar, collection, tuple, "
-        "UDT and custom types, 0-4 rows with nulls, metadata flags global-spec / has-more-pages / no-metadata with "
+        "UDT and custom types, 0-4 rows with nulls, caller-supplied result metadata absent / empty / identical / stale (column "
+        "added, dropped or renamed since the prepare) whenever the response carries its own metadata, metadata flags global-spec / has-more-pages / no-metadata with "
         "caller-supplied metadata / new metadata id on v5,v6,DSE_V2 / continuous page on DSE) / prepared (pk indexes v4+, result "
         "metadata v2+, metadata id v5/DSE_V2); ERROR for each of the 20 registered codes with its code-specific body "
         "(failure count before v5, reason map from v5), plus 0x1700 and an unassigned code; EVENT x3; SUPPORTED; READY; "
         "AUTHENTICATE; AUTH_CHALLENGE; AUTH_SUCCESS.  An enumerated part covers every (error code, version) pair with three fixed "
         "field variants.  Non-trivial: at least two header extras, or rows with >= 2 columns "
-        "including a nested type or >= 2 metadata flags, or an ERROR with a code-specific body, or a prepared result with pk "
+        "including a nested type or >= 2 metadata flags or stale caller metadata, or an ERROR with a code-specific body, or a prepared result with pk "
         "indexes, or an event / schema change with a target name.")
 ASSUMPTIONS = [
     "spec/proto.py is the oracle encoder: written from native_protocol_v1..v5.spec and the DSE additions, shares no code with cassandra.protocol",
@@ -236,6 +237,28 @@ def _rows_md(draw, v, for_prepared=False):
     if proto.has_continuous_paging(v) and not md["no_metadata"] and md["new_metadata_id"] is None and draw(st.integers(0, 2)) == 0:
         md["continuous_page"] = draw(st.one_of(st.sampled_from([1, 2, 2 ** 31 - 1]), st.integers(1, 2 ** 31 - 1)))
         md["last_page"] = draw(st.booleans())
+    # what the caller hands to decode_message as result_metadata (ResponseFuture: [] for simple statements, the
+    # metadata kept from the PREPARE for bound ones).  With NO_METADATA it must describe the rows; otherwise the
+    # response describes itself and the caller's copy may be absent, empty, identical or STALE (table altered
+    # after the prepare: a column added / dropped / renamed since) -- with or without Metadata_changed.
+    if md["no_metadata"]:
+        md["caller"] = "same"
+    else:
+        mode = draw(st.sampled_from(["none", "empty", "same", "stale", "stale"] +
+                                    (["stale", "stale"] if md["new_metadata_id"] is not None else [])))
+        if mode == "stale":
+            how = draw(st.sampled_from(["added", "dropped", "renamed"] if len(cols) >= 2 else ["dropped", "renamed"]))
+            if how == "added":       # the table gained its last column after the prepare
+                stale = [dict(c) for c in cols[:-1]]
+            elif how == "dropped":   # a column of the prepared metadata no longer exists
+                extra = {"ks": cols[0]["ks"], "table": cols[0]["table"], "name": "old_c", "type": draw(_type_tree(v, 1))}
+                pos = draw(st.integers(0, len(cols)))
+                stale = [dict(c) for c in cols[:pos]] + [extra] + [dict(c) for c in cols[pos:]]
+            else:
+                stale = [dict(c, name="old_" + c["name"]) for c in cols]
+            md["caller"] = {"how": how, "columns": stale}
+        else:
+            md["caller"] = mode
     return md
 
 
@@ -649,8 +672,18 @@ def interpret(case, ctx):
     assert h["length"] == len(body) and h["direction"] == "response"
 
     result_metadata = None
-    if op == "RESULT" and kind == "rows" and r["metadata"]["no_metadata"]:
-        result_metadata = [(c["ks"], c["table"], c["name"], _driver_type(c["type"])) for c in r["metadata"]["columns"]]
+    if op == "RESULT" and kind == "rows":
+        caller = r["metadata"].get("caller", "same" if r["metadata"]["no_metadata"] else "none")
+        if caller == "empty":
+            result_metadata = []
+        elif caller == "same":
+            result_metadata = [(c["ks"], c["table"], c["name"], _driver_type(c["type"])) for c in r["metadata"]["columns"]]
+        elif isinstance(caller, dict):
+            result_metadata = [(c["ks"], c["table"], c["name"], _driver_type(c["type"])) for c in caller["columns"]]
+            ctx.label("caller-md:stale:" + caller["how"])
+            if r["metadata"]["new_metadata_id"] is not None:
+                ctx.label("caller-md:stale+metadata_changed")
+        ctx.label("caller-md:" + (caller if isinstance(caller, str) else "stale"))
 
     ctx.label(op if op != "RESULT" else "RESULT:" + kind, _vclass(v))
     extras = (case["trace"] is not None) + (case["warnings"] is not None) + (case["payload"] is not None) + bool(case["compress"])
@@ -881,7 +914,7 @@ def _check_rows(ctx, K, msg, r, v, eq):
         ctx.label("rows:nested-type")
     if any(x is None for row in r["rows"] for x in row):
         ctx.label("rows:null-cell")
-    return (len(cols) >= 2 and nested) or flags >= 2
+    return (len(cols) >= 2 and nested) or flags >= 2 or isinstance(md.get("caller"), dict)
 
 
 def _check_prepared(ctx, K, msg, r, v, eq):
